@@ -33,6 +33,8 @@ pub(crate) fn filepath(dir: &Path, file_number: &FileNumber) -> PathBuf {
 
 fn create_file(dir_path: &Path, file_number: &FileNumber) -> io::Result<File> {
     let new_filepath = filepath(dir_path, file_number);
+    #[cfg(mrecordlog_verif)]
+    crate::verif::maybe_fail(crate::verif::FaultSite::OpenFile)?;
     let mut file = OpenOptions::new()
         .create_new(true)
         .write(true)
